@@ -979,6 +979,7 @@ func ruleSeq(c *engine.Context) *report.Rule {
 			case cfgutil.LoopAscending:
 				// bound must be len(X) of a loop-invariant slice, or a value defined outside the loop
 				if x, ok := lenArg(ind.Bound); ok {
+					x = resolveCell(x) // a parameter captured by a closure is re-read from its cell
 					if ins, isIns := x.(ssa.Instruction); isIns && l.Blocks[ins.Block()] && !invariantFieldLoad(c, fn, x) {
 						complete, why = false, "the bound's slice changes inside the loop"
 					}
